@@ -138,7 +138,7 @@ def handleCf (op : String) (args : List Sexp) : Option Sexp := do
         | .list [rev, rot, drev] => do
             let d ← boolOf? drev
             pure (exceptToSexp Codec.exprToSexp
-              (idcStar (orderWorlds (← boolOf? rev) (← asNat? rot)) (orderDistrict d) (orderDistrict d) G o c))
+              (idcStar (orderWorlds (← boolOf? rev) (← asNat? rot)) (orderDistrict d) (orderDistrict false) G o c))
         | _ => none
       pure (tagged "ok" rs)
   | "idc_star_checked", [g, outs, conds, .list strategies] => do
@@ -151,7 +151,7 @@ def handleCf (op : String) (args : List Sexp) : Option Sexp := do
         | .list [rev, rot, drev] => do
             let d ← boolOf? drev
             pure (exceptToSexp Codec.exprToSexp
-              (idcStar (orderWorlds (← boolOf? rev) (← asNat? rot)) (orderDistrict d) (orderDistrict d) G o c))
+              (idcStar (orderWorlds (← boolOf? rev) (← asNat? rot)) (orderDistrict d) (orderDistrict false) G o c))
         | _ => none
       let b := fun (x : Bool) => Sexp.atom (if x then "1" else "0")
       pure (tagged "ok" (.list [.atom "frag", b (inFragmentCB sortWorlds (orderDistrict false) G o c),
